@@ -99,7 +99,21 @@ class MigSim(Sim):
     """The open flow of Node: create_migrations over the pipe, apply to the replica."""
     proc = EngineProc(self.peer, name="M")
     src = self.store.snapshot()
-    blobs = {tid: db_blob(td) for tid, td in src.items()}
+    served = src
+    if ev.get("row_order") is not None:
+      # the storage layer promises no row order: serve every table's rows in a seeded permutation
+      # (the replica itself stays keyed by id)
+      import random
+      prng = random.Random(ev["row_order"])
+      served = {}
+      for tid in sorted(src):
+        _t, _id, row_ids, cols = src[tid]
+        perm = list(range(len(row_ids)))
+        prng.shuffle(perm)
+        served[tid] = [_t, _id, [row_ids[i] for i in perm],
+                       {c: [vals[i] for i in perm] for c, vals in cols.items()}]
+      self.count("fault.rows_served_out_of_order")
+    blobs = {tid: db_blob(td) for tid, td in served.items()}
     r = proc.call("create_migrations", blobs)
     out.ok = r.ok
     out.extra["pre_store"] = src
@@ -222,8 +236,11 @@ class C25(Profile):
       vals = {c: [seed_value(rng, ty, ids, cfg["dangling_p"]) for _ in range(nrows[t])]
               for c, ty in cols.items()}
       data.append(["BulkAddRecord", t, ids[t], vals])
+    mig = {"k": "migrate"}
+    if rng.random() < 0.35:
+      mig["row_order"] = rng.getrandbits(32)
     return [{"k": "mkdoc", "version": v, "schema": schema_actions, "data": data},
-            {"k": "migrate"}, {"k": "openmigrated"}, {"k": "migrate", "again": True}]
+            mig, {"k": "openmigrated"}, {"k": "migrate", "again": True}]
 
   def next_event(self, sim, g, cfg, st, i):
     return None
